@@ -12,7 +12,7 @@ DEF_BIN = [".dot.", ".X.", ".cross."]
 HOSTILE_STRINGS = [
     "'p+q'", '"u**v"', "'(a+b)'", "'it''s'", '"1.0e5"', "'a b'", '"say ""hi"""', "''",
     "'!not a comment'", "'a&b'", "'x;y'", '"don\'t"', "'.and.'", "' lead'", "'trail '",
-    "'a//b'", "'%'", '"(/"', "'=>'", "'::'", "'1_8'",
+    "'a//b'", "'%'", '"(/"', "'=>'", "'::'", "'1_8'", "'c & d'", '"&"', "'p & q & r'",
 ]
 PLAIN_STRINGS = ["'abc'", '"xyz"', "'Hello World'", "'A'", '"MiXed"']
 
